@@ -29,8 +29,8 @@ CLAIMED = {
   note="Token streams are compared with go/scanner (layout-insensitive); both a wrapping clone and a copying clone are accepted, as the statement allows."),
 "C10": dict(engine="filesim", cat="fault_enumeration", ref="DESIGN.md 5.6",
   technique="deterministic simulation with fault injection: fault plans at the caller's io.Writer (error / short write at the k-th Write) and at the os boundary under File.Save (real ENOENT/EISDIR/ENOTDIR situations in a sandbox; injected EACCES/ENOSPC/EIO with partial writes), enumerated over a fixed grid and sampled by seed; reference = fault-free rebuild of the same history",
-  text="A fixed grid (5 trees x 7 entry points x every fault kind, 355 cells) is enumerated on every run; beyond it trees (incl. unrenderable ones, 33-140 KB outputs, non-identifier package names), histories (repeated Saves to one path after the world changed, failure bursts) and fault plans (writer error/short write at Write 1..5, re-entrant writer, EACCES/ENOSPC/EIO with partial writes at the 1st/2nd filesystem call, read-only and long existing targets) are sampled by seed. A1: failed render => the writer got 0 bytes / the Save target is untouched; A2/A3: a nil return means the writer/target holds exactly the bytes of an independent fault-free rebuild, in this world and in a world where no fault ever fired; A4: success/failure agrees with that rebuild when no fault fired.",
-  note="Filesystem faults are injected at the package-level os functions and *os.File methods the rewriter redirects (listed in evidence as os_calls_redirected; anything else is reported as unintercepted); contract-violating writers (short count with nil error) are not injected; nothing is claimed about the target's content after a failed write."),
+  text="A fixed grid (5 trees x 7 entry points x every fault kind and Save target) is enumerated on every run; beyond it trees (incl. unrenderable ones, 33-140 KB outputs, non-identifier package names), histories (repeated Saves to one path after the world changed, failure bursts) and fault plans (writer error/short write at Write 1..5, re-entrant writer, EACCES/ENOSPC/EIO with partial writes at the 1st/2nd filesystem call, read-only and long existing targets) are sampled by seed. A1: failed render => the writer got 0 bytes / the Save target is untouched; A2/A3: a nil return means the writer/target holds exactly the bytes of an independent fault-free rebuild, in this world and in a world where no fault ever fired; A4: success/failure agrees with that rebuild when no fault fired.",
+  note="Filesystem faults are injected at the package-level os functions and *os.File methods the rewriter redirects (listed in evidence as os_calls_redirected; anything else is reported as unintercepted); contract-violating writers (short count with nil error) are not injected; nothing is claimed about a regular target's content after a failed write; when the target cannot even be opened (it is a directory, also an empty one, its parent is missing or a file) and Save fails, the whole directory must be as before."),
 "C03": dict(engine="filesim", cat="exploration", ref="DESIGN.md 5.1",
   technique="deterministic simulation: seeded File-lifecycle histories (hint/Anon/prefix/add/render in any order) under simulator-chosen map order; each rendered File's import bindings resolved against fabricated packages (own resolver + go/types)",
   text="Seeded exploration of histories (ImportName/ImportNames/ImportAlias/Anon/PackagePrefix/CgoPreamble/add/render in any order) over a collision-rich universe of import paths (shared base names, keywords, digits, unicode, leading punctuation, upper case, trailing slashes, std pairs, the cgo pseudo-package). Every successfully rendered File is read back: the import block's bindings (alias, or the package's true declared name when no alias is written) must bind the qualifier in front of each workload symbol to the path it was built with, uniquely and consistently; an import block that does not parse binds nothing; go/types with fabricated packages gives a second opinion on scoping.",
